@@ -25,6 +25,8 @@
 (* d0, d1, ... (values `data`, written in hexadecimal); it is placed in    *)
 (* the ROM right after the processor's code, so the address of d<k> is the  *)
 (* number of instructions of the section (after macro expansion) plus k.   *)
+(* With sharecode both processors are defined on the same code section     *)
+(* and each has its own data section.                                      *)
 (*                                                                         *)
 (* Wiring (ioatt): processor 0 reads the external input on i0.  With one   *)
 (* processor its outputs o0..o(NOut-1) are the external outputs.  With two, *)
@@ -48,7 +50,7 @@
 (***************************************************************************)
 EXTENDS Integers, Sequences, FiniteSets, TLC
 
-CONSTANTS RSize, Len0, Budget, NOut, NCP, NData, EntryAnywhere, DirectiveAnywhere, MacroHeavy
+CONSTANTS RSize, Len0, Budget, NOut, NCP, NData, EntryAnywhere, DirectiveAnywhere, MacroHeavy, SmallMovOnly
 
 ASSUME NCP \in {1, 2} /\ (NCP = 2 => NOut = 2)
 
@@ -60,9 +62,9 @@ CPs == 0 .. NCP - 1
 Lits == {0, 1, 2, 5, Mod - 1, Mod \div 2 + 3, Mod \div 64 + 1, Mod \div 8 + Mod \div 16 + 1}
 Notations == {"dec", "0x", "0b", "0d", "0u"}
 
-VARIABLES phase, progs, entry, epos, lbd, gio, attfirst, data, ref, asc, steps, lastio
-vars == <<phase, progs, entry, epos, lbd, gio, attfirst, data, ref, asc, steps, lastio>>
-shape == <<entry, epos, lbd, gio, attfirst, data>>
+VARIABLES phase, progs, entry, epos, lbd, gio, attfirst, data, sharecode, ref, asc, steps, lastio
+vars == <<phase, progs, entry, epos, lbd, gio, attfirst, data, sharecode, ref, asc, steps, lastio>>
+shape == <<entry, epos, lbd, gio, attfirst, data, sharecode>>
 
 L(op, a, b, t, nt) == [op |-> op, a |-> a, b |-> b, t |-> t, nt |-> nt]
 
@@ -71,14 +73,20 @@ L(op, a, b, t, nt) == [op |-> op, a |-> a, b |-> b, t |-> t, nt |-> nt]
 \* findings of C04)
 Unary  == {L(o, a, 0, 0, "") : o \in {"clr", "inc", "dec"}, a \in Regs}
 Binary == {L(o, a, b, 0, "") : o \in {"add", "cpy", "movrr"}, a \in Regs, b \in Regs}
-Loads  == {L(o, a, b, 0, nt) : o \in {"rset", "movri"}, a \in Regs, b \in Lits, nt \in Notations}
+\* SmallMovOnly: every literal is loaded with `mov` and is below 32 (the assembler may then choose a
+\* short load instruction that is narrower than the program's jumps)
+Loads  == IF SmallMovOnly
+          THEN {L("movri", a, b, 0, nt) : a \in Regs, b \in {0, 1, 2, 5, 21, 30}, nt \in {"dec", "0x"}}
+          ELSE {L(o, a, b, 0, nt) : o \in {"rset", "movri"}, a \in Regs, b \in Lits, nt \in Notations}
 Other  == {L("nop", 0, 0, 0, ""), L("twice", 0, 0, 0, "")}
 Plain  == Unary \cup Binary \cup Loads \cup Other
 Jumps == {L("j", 0, 0, t, "") : t \in 0 .. Len0 - 1} \cup {L("jz", a, 0, t, "") : a \in Regs, t \in 0 .. Len0 - 1}
 Sends == {L("send", o, b, 0, "") : o \in 0 .. NOut - 1, b \in Regs}
 Recvs == {L("recv", a, 0, 0, "") : a \in Regs}
 DataLines == {L("ldk", a, b, k, "") : a \in Regs, b \in Regs, k \in 0 .. NData - 1}
-DataVals == {0, 1, 5, 33, 128, 255} \cap (0 .. Mod - 1)
+DataSeq == <<0, 1, 5, 33, 128, 255>>
+\* the data words of processor c for seed d (a few assignments stand for all)
+DataOf(d) == [c \in CPs |-> [k \in 0 .. NData - 1 |-> DataSeq[((d + 2 * c + k) % 6) + 1]]]
 
 M0 == [pc |-> 0, regs |-> [r \in Regs |-> 0], nin |-> 0]
 I0 == [cps |-> [c \in CPs |-> M0], outs |-> <<>>]
@@ -90,7 +98,10 @@ Init ==
   /\ lbd \in (IF DirectiveAnywhere THEN BOOLEAN ELSE {FALSE})         \* the label of line epos is written BEFORE the directive
   /\ gio \in {"none", "sync", "async"}                                \* machine-wide default iomode in the bmdef line
   /\ attfirst \in BOOLEAN                                             \* which end of an ioatt pair is written first
-  /\ data \in [0 .. NData - 1 -> DataVals]                            \* the ROM data words of every processor
+  /\ data \in {DataOf(d) : d \in 0 .. 3}                              \* the ROM data words of each processor
+  \* both processors run ONE code section, each with its own data section; the second one's data
+  \* words are preceded by a padding word, so the same symbol has a different address on each
+  /\ sharecode \in (IF NCP = 2 /\ NData > 0 THEN BOOLEAN ELSE {FALSE})
   /\ ref = I0 /\ asc = I0 /\ steps = 0 /\ lastio = -10
 
 Cur == progs[Len(progs)]
@@ -118,7 +129,7 @@ Close ==
 
 NextCP ==
   /\ phase = "build" /\ Len(Cur) = Len0 /\ Len(progs) < NCP
-  /\ progs' = Append(progs, <<>>) /\ lastio' = -10
+  /\ progs' = Append(progs, IF sharecode THEN progs[1] ELSE <<>>) /\ lastio' = -10
   /\ UNCHANGED <<phase, shape, ref, asc, steps>>
 
 \* ---- deviations of the pinned tree (known findings of C05) ------------------------------------
@@ -141,7 +152,7 @@ ExtPort(c, o) == IF NCP = 1 THEN o ELSE IF c = 0 THEN 0 ELSE 1 + o
 \* ROM words taken by the code of processor c: a macro call and an ldk are two instructions
 RECURSIVE Words(_, _)
 Words(p, i) == IF i > Len(p) THEN 0 ELSE (IF p[i].op \in {"twice", "ldk"} THEN 2 ELSE 1) + Words(p, i + 1)
-DataAddr(c, k) == (Words(progs[c + 1], 1) + k) % Mod
+DataAddr(c, k) == (Words(progs[c + 1], 1) + k + (IF sharecode /\ c = 1 THEN 1 ELSE 0)) % Mod
 
 \* one line executed by processor state m; inval is the value a receive obtains
 Step(c, m, inval) ==
@@ -155,7 +166,7 @@ Step(c, m, inval) ==
                   [] l.op \in {"rset", "movri"} -> [regs EXCEPT ![l.a] = l.b]
                   [] l.op = "twice" -> [regs EXCEPT ![1] = (@ + 2) % Mod]
                   [] l.op = "recv" -> [regs EXCEPT ![l.a] = inval]
-                  [] l.op = "ldk" -> [[regs EXCEPT ![l.b] = DataAddr(c, l.t)] EXCEPT ![l.a] = data[l.t]]
+                  [] l.op = "ldk" -> [[regs EXCEPT ![l.b] = DataAddr(c, l.t)] EXCEPT ![l.a] = data[c][l.t]]
                   [] OTHER -> regs,
        nin  |-> IF l.op = "recv" /\ ~IsLinkRecv(c, l) THEN m.nin + 1 ELSE m.nin,
        pc   |-> CASE l.op = "j" -> l.t
